@@ -3,6 +3,8 @@ package opdrv
 import (
 	"bytes"
 	"context"
+	"crypto/sha256"
+	"crypto/sha512"
 	"encoding/base64"
 	"encoding/json"
 	"fmt"
@@ -509,8 +511,8 @@ func (d *Driver) ProjectIDT(raw, at, code string) M {
 		if !ok {
 			return "absent"
 		}
-		want, err := oidc.ClaimHash(over, alg)
-		if err == nil && over != "" && want == got {
+		// the harness' own left-half hash (crypto/sha256, sha512 directly): independent of the library's ClaimHash / HashString
+		if over != "" && halfHash(over, string(alg)) == got {
 			return "ok"
 		}
 		return "bad"
@@ -544,6 +546,23 @@ func (d *Driver) ProjectIDT(raw, at, code string) M {
 	}
 	t["uclaims"] = uc
 	return t
+}
+
+// halfHash: base64url of the left half of the hash that belongs to the signature algorithm (OIDC Core 3.1.3.6).
+func halfHash(s, alg string) string {
+	var sum []byte
+	switch {
+	case strings.HasSuffix(alg, "384"):
+		x := sha512.Sum384([]byte(s))
+		sum = x[:]
+	case strings.HasSuffix(alg, "512"), alg == "EdDSA":
+		x := sha512.Sum512([]byte(s))
+		sum = x[:]
+	default:
+		x := sha256.Sum256([]byte(s))
+		sum = x[:]
+	}
+	return base64.RawURLEncoding.EncodeToString(sum[:len(sum)/2])
 }
 
 // journalNames renders the storage journal of the last operation as method names.
